@@ -198,6 +198,31 @@ def scenarios():
                                  "func initProd() sql.Backend {\n\tpanic(wire.Build(sql.Set))\n}\n\nfunc initDev() mem.Backend {\n\tpanic(wire.Build(mem.Set))\n}\n\n"
                                  "func initDevFn() *mem.Store {\n\tpanic(wire.Build(mem.New))\n}\n\nfunc initProdBackend() sql.Backend {\n\tpanic(wire.Build(sql.New, sql.Binding))\n}\n") % W,
     }, "./i1/app", "mysql memory memory mysql", ["C02", "C06", "C11", "C05", "C14"])
+    # the injector sits in the very directory that holds internal/ (the parent itself may import it), and in a sibling
+    # directory whose name merely starts like the parent's (it may not)
+    g4 = libg("g4")
+    g4.update({"g4/lib/main_test_helper.go": "package lib\n",
+               "g4/lib/wire.go": INJ + "package lib\n\nimport \"%s\"\n\nfunc InitStore() *Store {\n\tpanic(wire.Build(Set))\n}\n" % W,
+               "g4/run/main.go": "package main\n\nimport (\n\t\"fmt\"\n\n\t\"example.com/l/g4/lib\"\n)\n\nfunc main() { fmt.Println(\"store\", lib.InitStore().N) }\n"})
+    add("G-internal-providers-used-by-the-parent-itself", "G", g4, "./g4/run", "store 42", ["C01", "C13", "C10"])
+    g5 = libg("g5")
+    g5.update({"g5/libfront/app.go": "package main\n\nfunc main() {}\n",
+               "g5/libfront/wire.go": INJ + "package main\n\nimport (\n\t\"example.com/l/g5/lib\"\n\t\"%s\"\n)\n\nfunc initX() *lib.Store {\n\tpanic(wire.Build(lib.Set))\n}\n" % W})
+    add("E-internal-package-used-by-a-sibling-with-a-longer-name", "E", g5, "./g5/libfront", None, ["C01", "C13", "C19"], reject=rxi)
+    # a pointer to an interface-typed field
+    add("H-pointer-to-an-interface-typed-field", "H", {
+        "h7/app/main.go": ("package main\n\nimport \"fmt\"\n\ntype Logger interface{ Log() string }\ntype std struct{ p string }\n\nfunc (s std) Log() string { return s.p }\n\n"
+                           "type Env struct {\n\tName string\n\tLog  Logger\n}\ntype Svc struct {\n\tL *Logger\n\tN *string\n}\n\nfunc NewSvc(l *Logger, n *string) *Svc { return &Svc{L: l, N: n} }\n\n"
+                           "func main() {\n\tenv := &Env{Name: \"e\", Log: std{p: \"a\"}}\n\ts := initSvc(env)\n\t*s.L = std{p: \"b\"}\n\t*s.N = \"f\"\n\tfmt.Println(env.Log.Log(), env.Name, s.L == &env.Log)\n}\n"),
+        "h7/app/wire.go": INJ + ("package main\n\nimport \"%s\"\n\nfunc initSvc(env *Env) *Svc {\n\tpanic(wire.Build(wire.FieldsOf(new(*Env), \"Log\", \"Name\"), NewSvc))\n}\n") % W,
+    }, "./h7/app", "b f true", ["C12", "C02"])
+    # wire.Struct on another package's type, first mention of that package, next to a local named like the package
+    add("H-struct-of-a-package-first-mentioned-by-wire-struct", "H", {
+        "h8/conf/conf.go": "package conf\n\ntype Settings struct {\n\tHost string\n\tPort int\n\tNote string\n}\n",
+        "h8/app/main.go": ("package main\n\nimport (\n\t\"fmt\"\n\n\t\"example.com/l/h8/conf\"\n)\n\ntype Conf struct{ H string }\ntype Out struct{ S string }\n\nfunc provideConf() Conf { return Conf{H: \"h\"} }\nfunc provideHost(c Conf) string { return c.H }\n"
+                           "func providePort() int { return 80 }\nfunc NewOut(s *conf.Settings) Out { return Out{S: fmt.Sprint(s.Host, s.Port, s.Note == \"\")} }\n\nfunc main() { fmt.Println(initOut().S) }\n"),
+        "h8/app/wire.go": INJ + ("package main\n\nimport (\n\t\"example.com/l/h8/conf\"\n\t\"%s\"\n)\n\nfunc initOut() Out {\n\tpanic(wire.Build(provideConf, provideHost, providePort, wire.Struct(new(conf.Settings), \"Host\", \"Port\"), NewOut))\n}\n") % W,
+    }, "./h8/app", "h80 true", ["C12", "C14", "C01"])
     # variadic provider fed from a slice provider, variadic injector parameter consumed as a slice
     add("H-variadic-provider-and-injector", "H", {
         "h5/app/main.go": ("package main\n\nimport \"fmt\"\n\ntype Option string\ntype App struct {\n\tOpts []Option\n\tIDs  []string\n}\n\nfunc NewOptions() []Option { return []Option{\"a\", \"b\"} }\n"
